@@ -6,7 +6,7 @@ from .. import layer_b as B
 from ..runner import canon
 
 MODULE = "Props.C10"
-THEOREMS = ["C10_positions_are_distinct", "C10_joined_equals_sequential", "C10_errors_are_exactly_the_panics",
+THEOREMS = ["C10_positions_are_distinct", "C10_joined_equals_sequential", "C10_joined_count_verdict_is_sequential", "C10_errors_are_exactly_the_panics",
             "C10_atomic_call_refines_sequential_call", "C10_nonvacuous"]
 
 RULE = ("programs of 2-4 threads x 1-3 calls on shared patterns (response chains with a distinct tag per position, ordered and unordered "
